@@ -169,7 +169,10 @@ def discharge(obligations, procs=None, z3_timeout_ms=None, cvc5_timeout_ms=None,
     retry = [(i, relaxed_text[i] if getattr(ob, "false_goal", False) and i in relaxed_text else full_text[i], 6 * zt, True)
              for i, ob in enumerate(obligations)
              if (i in full_text or i in relaxed_text) and ob.kind not in ("canary", "vacuity") and ob.result in ("unknown", "error")]
-    if retry and not os.environ.get("PYVC_NO_RETRY"):
+    refuted = any(ob.result == "sat" and ob.kind not in ("canary", "vacuity") for ob in obligations)
+    # (only worth it when a handful is open: on a broken tree dozens of obligations are open or refuted and the verdict is decided by
+    #  the refutations / the native harness anyway)
+    if retry and len(retry) <= 12 and not refuted and not os.environ.get("PYVC_NO_RETRY"):
         saved_procs = procs
         procs = 4
         for idx, res, t, model, reason in run(retry, _z3_worker):
